@@ -137,8 +137,11 @@ fn scenario(env: &Env, k: u64, case: u64, rng: &mut rand::rngs::SmallRng, d: &mu
         }
     }
     // plan
-    let n_frames = *rng.pick(&[1usize, 5, 20, 60, 200]);
-    let burst = rng.chance(1, 3);
+    // one case in 16 is a flood: more than a thousand frames offered at one instant, so that a throughput-limited
+    // wire has a four-digit backlog (nothing in the statement lets a loss-free network shed load)
+    let flood = rng.chance(1, 16);
+    let n_frames = if flood { rng.gen_range(1050..=1700usize) } else { *rng.pick(&[1usize, 5, 20, 60, 200]) };
+    let burst = flood || rng.chance(1, 3);
     let mut plan: Vec<Planned> = vec![];
     for id in 0..n_frames as u64 {
         let machine = rng.gen_range(0..n_machines);
@@ -158,7 +161,7 @@ fn scenario(env: &Env, k: u64, case: u64, rng: &mut rand::rngs::SmallRng, d: &mu
             1 => mtu,
             2 => (mtu + 1).min(70000),
             3 => 8,
-            _ => rng.gen_range(8..=mtu.min(3000)),
+            _ => rng.gen_range(8..=mtu.min(if flood { 300 } else { 3000 })),
         };
         plan.push(Planned { id, machine, slot: slot as u32, net, at_ms: if burst { 10 } else { rng.gen_range(0..500) }, dest, len });
     }
